@@ -1,6 +1,7 @@
 import HcipyVerif.Model.OpIR
 import Mathlib.Algebra.Ring.Defs
 import Mathlib.Tactic.Ring
+import Mathlib.Algebra.Order.Field.Rat
 
 /-!
 Helper lemmas for C06: list-vector algebra and the structural induction showing that every
@@ -233,5 +234,12 @@ theorem denote_semilinear {cj : K → K} (hc : IsConj cj) (t : Term K) :
     intro b hb a x y h
     simp only [parity, Option.some.injEq] at hb; subst hb
     simp only [denote, twist, conj_lincomb hc]; rfl
+
+theorem sumsq_smul (a : Rat) (x : List Rat) : sumsq (smul a x) = a * a * sumsq x := by
+  induction x with
+  | nil => simp [sumsq, smul]
+  | cons c x ih =>
+    simp only [sumsq, smul, List.map_cons, List.sum_cons] at ih ⊢
+    rw [ih]; ring
 
 end HcipyVerif.OpIR
